@@ -1255,6 +1255,12 @@ impl<'a> World<'a> {
         let present: BTreeSet<ChitchatId> = node.chitchat.node_states().keys().cloned().collect();
         self.frontiers.retain(|(s, id), _| *s != slot || present.contains(id));
         self.key_versions.retain(|(s, id), _| *s != slot || present.contains(id));
+        if mon == Monitor::C06 {
+            // An entry that left the copy (reset, catch-up replacing the key set) and comes back
+            // later is a new receipt: its grace period starts again.
+            let held: BTreeSet<(ChitchatId, String, u64)> = node.chitchat.node_states().iter().flat_map(|(id, ns)| ns.key_values_including_deleted().map(move |(k, vv)| (id.clone(), k.to_string(), vv.version))).collect();
+            self.marked_since.retain(|(s, id, k, v), _| *s != slot || held.contains(&(id.clone(), k.clone(), *v)));
+        }
         for (k, v) in new_frontiers {
             self.frontiers.insert(k, v);
         }
